@@ -50,23 +50,29 @@ def ubf_from_bytes_any(raw: Bytes):
 
 
 @obligation(["C20"], "UnsignedByteField.value.setter/int", verifies=[M + "UnsignedByteField.value"])
-def ubf_set_int(width: WIDTH, v0: Int, v1: Int):
+def ubf_set_int(width: WIDTH, v0: Int, v1: Int, used_before: Bool):
     requires(0 <= v0 < pow256(width))
     f = UnsignedByteField(v0, width)
+    if used_before:      # every view has been taken before the assignment (fills whatever an implementation may cache)
+        hash(f), int(f), len(f), f.as_bytes, f.hex_str
     o = outcome(setattr, f, "value", v1)
     ensures("valueerror-iff", o.raised(ValueError) == either(v1 < 0, v1 >= pow256(width)))
     ensures("raises-only", o.ok or o.raised(ValueError))
     if o.ok:
         ensures("coherent", same_state(f, UnsignedByteField(v1, width)))
         ensures("views", both(int(f) == v1, f.as_bytes == be(width, v1), len(f) == width))
+        ensures("eq-hash-follow", both(f == UnsignedByteField(v1, width), hash(f) == hash(UnsignedByteField(v1, width))))
     else:
-        ensures("unchanged-on-error", same_state(f, UnsignedByteField(v0, width)))
+        ensures("unchanged-on-error", both(f == UnsignedByteField(v0, width), f.value == v0, f.as_bytes == be(width, v0),
+                                           hash(f) == hash(UnsignedByteField(v0, width))))
 
 
 @obligation(["C20"], "UnsignedByteField.value.setter/octets", verifies=[M + "UnsignedByteField.value", M + "UnsignedByteField._verify_bytes_value"])
-def ubf_set_bytes(width: WIDTH1, v0: Int, raw: Bytes, as_array: Bool):
+def ubf_set_bytes(width: WIDTH1, v0: Int, raw: Bytes, as_array: Bool, used_before: Bool):
     requires(0 <= v0 < pow256(width))
     f = UnsignedByteField(v0, width)
+    if used_before:
+        hash(f), int(f), len(f), f.as_bytes, f.hex_str
     arg = bytearray(raw) if as_array else raw
     o = outcome(setattr, f, "value", arg)
     ensures("valueerror-iff", o.raised(ValueError) == (len(raw) < width))
@@ -75,6 +81,8 @@ def ubf_set_bytes(width: WIDTH1, v0: Int, raw: Bytes, as_array: Bool):
         ensures("octets", f.as_bytes == raw[0:width])
         ensures("value", f.value == from_be(raw[0:width]))
         ensures("views", both(int(f) == f.value, len(f) == width, f == UnsignedByteField.from_bytes(raw[0:width])))
+        fresh = UnsignedByteField(from_be(raw[0:width]), width)
+        ensures("eq-hash-follow", both(f == fresh, hash(f) == hash(fresh), len(f.as_bytes) == width))
 
 
 @obligation(["C20"], "UnsignedByteField.__eq__/__hash__", verifies=[M + "UnsignedByteField.__eq__", M + "UnsignedByteField.__hash__"])
